@@ -143,6 +143,12 @@ def stepByGo {α : Type} (n : Nat) : Nat → List α → List α
   | k + 1, _ :: t => stepByGo n k t
 /-- `it.step_by(n)` (`n = 0` panics) -/
 def stepBy {α : Type} (l : List α) (n : Nat) : Res (List α) := if n = 0 then panic else ok (stepByGo n 0 l)
+/-- `(lo..hi).step_by(n)`: `lo, lo + n, lo + 2n, …` below `hi` (`n = 0` panics) -/
+def rangeStepBy (lo hi n : Nat) : Res (List Nat) :=
+  if n = 0 then panic else ok (List.range' lo ((hi - lo + n - 1) / n) n)
+theorem rangeStepBy_ok {lo hi n : Nat} (h : 0 < n) : rangeStepBy lo hi n = ok (List.range' lo ((hi - lo + n - 1) / n) n) := by
+  have : n ≠ 0 := by omega
+  simp [rangeStepBy, this]
 theorem stepBy_ok {α : Type} {l : List α} {n : Nat} (h : 0 < n) : stepBy l n = ok (stepByGo n 0 l) := by
   have : n ≠ 0 := by omega
   simp [stepBy, this]
